@@ -47,6 +47,9 @@ Fixpoint node_eqb (a b : node) {struct a} : bool :=
   | NTpl r1 p1 s1 n1 m1, NTpl r2 p2 s2 n2 m2 =>
     bytes_eqb r1 r2 && bytes_eqb p1 p2 && bytes_eqb s1 s2 && Bool.eqb n1 n2 && list_eqb mod_eqb m1 m2
   | NCond c1 l1, NCond c2 l2 => cond_eqb c1 c2 && nodes_eqb_with node_eqb l1 l2
+  | NCondOK k1 c1 l1, NCondOK k2 c2 l2 =>
+    bytes_eqb (oL k1) (oL k2) && bytes_eqb (oR k1) (oR k2) && bytes_eqb (oIns k1) (oIns k2) &&
+    cond_eqb c1 c2 && nodes_eqb_with node_eqb l1 l2
   | NBlock k1 i1 l1, NBlock k2 i2 l2 => bk_eqb k1 k2 && case_eqb i1 i2 && nodes_eqb_with node_eqb l1 l2
   | NLoopRange k1 v1 s1 p1 l1, NLoopRange k2 v2 s2 p2 l2 =>
     bytes_eqb k1 k2 && bytes_eqb v1 v2 && bytes_eqb s1 s2 && bytes_eqb p1 p2 && nodes_eqb_with node_eqb l1 l2
